@@ -8,6 +8,7 @@ CONSTANTS
   NACL = 2
   TLEN = 3
   NPRED = 4
+  ILEN = 3
   GEN = FALSE
   CHUNK = 64
 INVARIANTS PatConform PatRoundTrip AclConform TokRoundTrip Emit EmitMeta
